@@ -389,6 +389,12 @@ def items(tier):
                     seqs = [s for s in seqs if s in ((0, 1), (1, 1))]
                 for obs in seqs:
                     its.append((name, N, T, obs))
+    # ESS-triggered resampling inside rejuvenation_smc needs ESS < N // 2, impossible for N <= 3:
+    # N = 4 is the smallest particle count that reaches the resampling branch of the lax.cond
+    # (thorough only: ~60k leaves per observation sequence)
+    if tier == "thorough":
+        for obs in itertools.product((0, 1), repeat=2):
+            its.append(("rsmc", 4, 2, obs))
     return its
 
 
